@@ -482,6 +482,12 @@ func readDnsMsgFromBufio(reader *bufio.Reader, timeout time.Duration, conn net.C
 		return nil, 0, err
 	}
 
+	// A response is not DNS client traffic: leave it buffered, so that a caller falling
+	// back to normal TCP handling relays these bytes too.
+	if msg.Response {
+		return &msg, 0, nil
+	}
+
 	// Consume the data by discarding it
 	_, err = reader.Discard(int(2 + length))
 	if err != nil {
